@@ -264,6 +264,7 @@ func runC14(c *Ctx) {
 	c14Required(c)
 	c14Exhaustion(c)
 	c14Schema(c)
+	c14PeekingScanner(c)
 }
 
 // c14Schema: the published JSON schema of a target agrees with the Target type and the targeter's required-field checks.
@@ -840,4 +841,101 @@ func onlyConvertedToString(i ssa.Instruction) bool {
 		}
 	}
 	return true
+}
+
+// c14PeekingScanner: the one-line lookahead never loses or repeats a line.
+func c14PeekingScanner(c *Ctx) {
+	const rule = "peekingScanner: Text() returns the peeked line exactly once (it clears the lookahead on that path) and otherwise the scanner's current line; Scan() advances the underlying scanner only when nothing is peeked; Peek() records what it read"
+	key := "lookahead:lib.peekingScanner"
+	text := c.P.Func("lib", "peekingScanner.Text")
+	scan := c.P.Func("lib", "peekingScanner.Scan")
+	peek := c.P.Func("lib", "peekingScanner.Peek")
+	if text == nil || scan == nil || peek == nil {
+		c.Undecided(key, rule, "peekingScanner methods not found")
+		return
+	}
+	for _, f := range []*ssa.Function{text, scan, peek} {
+		c.Saw("function " + shortFn(f))
+	}
+	isPeeked := func(v ssa.Value) bool { return strings.HasSuffix(describeVal(v), ".peeked") }
+	emptyTest := func(fn *ssa.Function) *ssa.If {
+		var out *ssa.If
+		eachInstr(fn, func(i ssa.Instruction) {
+			if bo, ok := i.(*ssa.BinOp); ok && bo.Op == token.EQL && isPeeked(bo.X) {
+				if s, isS := constString(bo.Y); isS && s == "" {
+					out = trueImpliesIf(bo)
+				}
+			}
+		})
+		return out
+	}
+	ok, why := true, ""
+	// Text
+	if ifi := emptyTest(text); ifi == nil {
+		ok, why = false, "Text does not test the lookahead"
+	} else {
+		// empty → returns src.Text()
+		okE := false
+		for _, r := range returnsIn(exploreBlock(ifi.Block().Succs[0], nil)) {
+			if call, isCall := r.(*ssa.Return).Results[0].(*ssa.Call); isCall && callName(&call.Call) == "(*bufio.Scanner).Text" {
+				okE = true
+			}
+		}
+		// non-empty → clears peeked before returning the old value
+		cleared := false
+		set := exploreBlock(ifi.Block().Succs[1], func(i ssa.Instruction) bool {
+			if st, isSt := i.(*ssa.Store); isSt {
+				if fa, isFA := st.Addr.(*ssa.FieldAddr); isFA && fieldName(fa.X.Type(), fa.Field) == "peeked" {
+					if s, isS := constString(st.Val); isS && s == "" {
+						cleared = true
+						return true
+					}
+				}
+			}
+			return false
+		})
+		if len(returnsIn(set)) > 0 || !cleared {
+			ok, why = false, "Text returns the peeked line without clearing the lookahead (the line would be delivered twice)"
+		}
+		if !okE {
+			ok, why = false, "with nothing peeked Text does not return the scanner's current line"
+		}
+	}
+	// Scan
+	if ifi := emptyTest(scan); ok && ifi == nil {
+		ok, why = false, "Scan does not test the lookahead"
+	} else if ok {
+		adv := false
+		for i := range exploreBlock(ifi.Block().Succs[0], nil) {
+			if isCallTo(i, "(*bufio.Scanner).Scan") {
+				adv = true
+			}
+		}
+		skip := false
+		for i := range exploreBlock(ifi.Block().Succs[1], nil) {
+			if isCallTo(i, "(*bufio.Scanner).Scan") {
+				skip = true
+			}
+		}
+		if !adv || skip {
+			ok, why = false, "Scan advances the underlying scanner while a line is peeked (that line would be lost), or never advances"
+		}
+	}
+	// Peek stores the scanned text
+	if ok {
+		stored := false
+		eachInstr(peek, func(i ssa.Instruction) {
+			if st, isSt := i.(*ssa.Store); isSt {
+				if fa, isFA := st.Addr.(*ssa.FieldAddr); isFA && fieldName(fa.X.Type(), fa.Field) == "peeked" {
+					if call, isCall := st.Val.(*ssa.Call); isCall && callName(&call.Call) == "(*bufio.Scanner).Text" {
+						stored = true
+					}
+				}
+			}
+		})
+		if !stored {
+			ok, why = false, "Peek does not record the line it consumed"
+		}
+	}
+	c.Check(ok, key, rule, "peek recorded, delivered once, no advance while peeked", why, c.fnAt(text), c.fnAt(scan), c.fnAt(peek))
 }
